@@ -371,23 +371,25 @@ bloom_filter_alloc<A> bloom_filter_alloc<A>::internal_deserialize_or_wrap(void* 
   if (wrap && is_empty && !read_only) {
     throw std::invalid_argument("Cannot wrap an empty filter for writing");
   } else if (is_empty) {
-    return bloom_filter_alloc<A>(num_longs << 6, num_hashes, seed, allocator);
+    return bloom_filter_alloc<A>(static_cast<uint64_t>(num_longs) << 6, num_hashes, seed, allocator);
   }
 
+  // a non-empty filter has the number of bits set in a 4th preamble long, followed by the bit array
+  ensure_minimum_memory(length_bytes, PREAMBLE_LONGS_STANDARD * sizeof(uint64_t));
   uint64_t num_bits_set;
   ptr += copy_from_mem(ptr, num_bits_set);
   const bool is_dirty = (num_bits_set == DIRTY_BITS_VALUE);
 
   uint8_t* bit_array;
   uint8_t* memory;
+  const uint64_t num_bytes = static_cast<uint64_t>(num_longs) << 3;
+  ensure_minimum_memory(end_ptr - ptr, num_bytes); // the whole bit array must be present, wrapped or copied
   if (wrap) {
     memory = static_cast<uint8_t*>(bytes);
     bit_array = memory + BIT_ARRAY_OFFSET_BYTES;
   } else {
     // allocate memory
     memory = nullptr;
-    const uint64_t num_bytes = num_longs << 3;
-    ensure_minimum_memory(end_ptr - ptr, num_bytes);
     AllocUint8 alloc(allocator);
     bit_array = alloc.allocate(num_bytes);
     if (bit_array == nullptr) {
@@ -397,7 +399,7 @@ bloom_filter_alloc<A> bloom_filter_alloc<A>::internal_deserialize_or_wrap(void* 
   }
 
   // pass to constructor -- !wrap == is_owned_
-  return bloom_filter_alloc<A>(seed, num_hashes, is_dirty, !wrap, read_only, num_longs << 6, num_bits_set, bit_array, memory, allocator);
+  return bloom_filter_alloc<A>(seed, num_hashes, is_dirty, !wrap, read_only, static_cast<uint64_t>(num_longs) << 6, num_bits_set, bit_array, memory, allocator);
 }
 
 template<typename A>
